@@ -21,6 +21,7 @@ retyped / inserted token obeys the table, every pushed `ExpectSymbol(ty, ch)` ha
 return modes with that property); `ChanFns.lean` proves it for all ≈ 110 functions of the control logic — the
 computed types come with their own lemmas (keyword tables by `decide +kernel`, numeric parsers, mnemonics, literal
 endings) —; `ChanSound.lean` proves it sound against the primitives (`step_ChInv`, `ChanR_sound`).
+The same pass carries a second table, `payKindOK` (which kind of payload a type carries): `model_payload_kinds`.
 -/
 namespace SasLexer
 
@@ -41,14 +42,15 @@ example : Spec.C06 "x='a''b'd; %let q=%str(a%'b); y=&&v&i..z 0ffx $f5.2 /*c*/ *s
   decide +kernel
 
 theorem new_ChInv (cfg : Cfg) (s : List Char) : ChInv (Lexer.new cfg s) := by
-  refine ⟨?_, ?_⟩
+  refine ⟨?_, ?_, ?_⟩
   · intro t ht; simp [Lexer.new, Lexer.bufAddLine] at ht
   · intro m hm
     simp [Lexer.new, Lexer.bufAddLine] at hm
     subst hm; trivial
+  · exact Or.inl (by simp [Lexer.new, Lexer.bufAddLine])
 
 theorem intoDetached_ChInv (cfg : Cfg) (L : Lexer) (h : ChInv L) :
-    ∀ t ∈ (L.intoDetached cfg).1.toks, chanOK t.chan t.ty = true := by
+    ∀ t ∈ (L.intoDetached cfg).1.toks, tokInfoOK t = true := by
   unfold Lexer.intoDetached
   have e : (if L.linesR.isEmpty = true then (L.bufAddLine cfg 0 0).2 else L).toksR = L.toksR := by split <;> rfl
   generalize (if L.linesR.isEmpty = true then (L.bufAddLine cfg 0 0).2 else L) = L1 at e
@@ -69,7 +71,7 @@ theorem intoDetached_ChInv (cfg : Cfg) (L : Lexer) (h : ChInv L) :
       · exact h.toks t (by rw [← e]; first | exact ht | (rw [hl]; simpa using ht))
 
 /-- **C06, channel table, for the model: every input, both profiles, every ending.** -/
-theorem model_channels (cfg : Cfg) (s : List Char) : ∀ t ∈ (lexProgram cfg s).buf.toks, chanOK t.chan t.ty = true := by
+theorem model_channels (cfg : Cfg) (s : List Char) : ∀ t ∈ (lexProgram cfg s).buf.toks, tokInfoOK t = true := by
   unfold lexProgram
   simp only
   have h0 := new_ChInv cfg s
@@ -96,8 +98,8 @@ theorem model_channels (cfg : Cfg) (s : List Char) : ∀ t ∈ (lexProgram cfg s
       | some m => intro t ht; simp at ht
       | none => exact intoDetached_ChInv cfg _ h2
 
-theorem C06_model_channels (cfg : Cfg) (s : List Char) :
-    ((modelDump cfg s).toks.all fun t => chanOK t.chan t.ty) = true := by
+theorem C06_model_tables (cfg : Cfg) (s : List Char) :
+    ((modelDump cfg s).toks.all tokInfoOK) = true := by
   rw [List.all_eq_true]
   unfold modelDump
   split
@@ -107,6 +109,28 @@ theorem C06_model_channels (cfg : Cfg) (s : List Char) :
     · split <;> (intro t ht; simp [emptyDump] at ht)
     · simp only [dumpOfBuf]
       exact model_channels cfg s
+
+
+
+theorem C06_model_channels (cfg : Cfg) (s : List Char) :
+    ((modelDump cfg s).toks.all fun t => chanOK t.chan t.ty) = true := by
+  have h := C06_model_tables cfg s
+  rw [List.all_eq_true] at h ⊢
+  intro t ht
+  have := h t ht
+  simp only [tokInfoOK, Bool.and_eq_true] at this
+  exact this.1
+
+/-- **payload-kind table for the model, every input** (C07 `only-string-types-carry-str-payload`, C08 "numeric tokens carry
+their number", C06 "macro-variable resolve tokens carry their level") -/
+theorem model_payload_kinds (cfg : Cfg) (s : List Char) :
+    ((modelDump cfg s).toks.all fun t => payKindOK t.ty t.payload) = true := by
+  have h := C06_model_tables cfg s
+  rw [List.all_eq_true] at h ⊢
+  intro t ht
+  have := h t ht
+  simp only [tokInfoOK, Bool.and_eq_true] at this
+  exact this.2
 
 
 end SasLexer
